@@ -565,6 +565,31 @@ def Op.ids : Op → List Nat
     s :: ((inlet.map PortRef.ids).getD [] ++ (outlet.map PortRef.ids).getD [])
   | .pipeUU _ _ => []
 
+/-- The unit objects an operation mentions (a unit cannot be referred to before it is constructed). -/
+def Op.units : Op → List Nat
+  | .newStream => []
+  | .newUnit _ _ _ _ _ _ => []
+  | .set _ u _ _ => [u]
+  | .slice _ u _ _ _ => [u]
+  | .sliceAll _ u _ => [u]
+  | .insert _ u _ _ => [u]
+  | .append _ u _ => [u]
+  | .extend _ u _ => [u]
+  | .replace _ u _ _ => [u]
+  | .pop _ u _ => [u]
+  | .remove _ u _ => [u]
+  | .clear _ u => [u]
+  | .empty _ u => [u]
+  | .dsrc _ => []
+  | .dsnk _ => []
+  | .disc _ => []
+  | .udisc u _ _ _ => [u]
+  | .takePlaceOf u o => [u, o]
+  | .replaceWithNone u => [u]
+  | .reconnect src _ snk => (src.map (·.1)).toList ++ (snk.map (·.1)).toList
+  | .insertUnit u _ _ _ => [u]
+  | .pipeUU u v => [u, v]
+
 def World.exec (w : World) : Op → Except Err World
   | .newStream => .ok w.newStream.1
   | .newUnit ni fi ai no fo ao => (w.newUnit ni fi ai no fo ao).map (·.1)
@@ -598,11 +623,11 @@ def World.exec (w : World) : Op → Except Err World
   | .insertUnit u s inlet outlet => w.insertUnit u s inlet outlet
   | .pipeUU u v => w.on .i (·.setStreams v 0 (w.ins.lst v).length ((w.outs.lst u).map some))
 
-/-- One operation.  An operation can only mention stream objects that exist
-(ids below the allocation counter); anything else is outside the property's
+/-- One operation.  An operation can only mention stream and unit objects that exist
+(ids below the allocation counters); anything else is outside the property's
 preconditions. -/
 def World.step (w : World) (op : Op) : Except Err World :=
-  { w with pre := w.pre && op.ids.all (· < w.nS) }.exec op
+  { w with pre := w.pre && op.ids.all (· < w.nS) && op.units.all (· < w.nU) }.exec op
 
 /-- Run a history; an error ends it (the Python call raised). -/
 def World.run (w : World) : List Op → World
